@@ -97,6 +97,10 @@ def get_member(obj, member: 'IdentifierToken'):
         raise ParseError(f"member name expected, instead found {member}", member.offset)
     if member.name.startswith('_'):
         raise ParseError(f"Cannot read protected and private member variables: {obj}.{member.name}", member.offset)
+    if member.name in ('format', 'format_map'):
+        # Format strings can traverse attributes themselves, e.g., '{0._x}'.format(obj) or str.format('{0._x}', obj)
+        raise ParseError(f"Cannot use {member.name}: format strings can read protected and private member variables",
+                         member.offset)
     return getattr(obj, member.name)
 
 
